@@ -12,6 +12,7 @@ import (
 	"golang.org/x/tools/go/packages"
 
 	"verif/internal/core"
+	"verif/internal/eff"
 )
 
 func init() { Registry["C18"] = checkC18 }
@@ -44,6 +45,7 @@ func checkC18(c *core.Ctx) error {
 	c18NamedKeys(c)
 	c18DecoderComplete(c)
 	c18CrossedFields(c)
+	c18EncodersPure(c)
 	c18Decoders(c)
 	return nil
 }
@@ -2196,4 +2198,46 @@ func c18CrossedFields(c *core.Ctx) {
 			}
 		})
 	}
+}
+
+// ---------------------------------------------------------------------------
+// R10: encoders do not change the object they encode
+//
+// "Reading it back yields an object observably equal to the original" presupposes that writing leaves the original as
+// it was. The interprocedural may-write summaries (engine eff, as in C12) of every encoder — ExportConfig, MarshalJSON,
+// Export — must contain no write that reaches the receiver (an in-place Map(exp) on the receiver's own log-weights
+// instead of on a clone corrupts the source while the written document is still right).
+func c18EncodersPure(c *core.Ctx) {
+	c.Rule("C18.R10", "encoders (ExportConfig, MarshalJSON, Export) write nothing that is reachable from their receiver", 100)
+	e := eff.New(c.LibPkgs(), c.Fset)
+	n := 0
+	for _, f := range e.All {
+		if f.Decl == nil || f.Decl.Recv == nil {
+			continue
+		}
+		switch f.Decl.Name.Name {
+		case "ExportConfig", "MarshalJSON", "Export":
+		default:
+			continue
+		}
+		if len(f.Params) == 0 || f.Params[0] == nil {
+			continue
+		}
+		n++
+		var ws []eff.Write
+		for _, w := range observableWrites(f.WritesOf(f.Params[0])) {
+			// iterators advance their own state and sparse iterators drop explicitly stored zeros while they pass over them: a change of representation, not of
+			// the value (reported under C12.R5 where it matters: concurrent readers)
+			if strings.Contains(describeWrite(c, w), "Iterator).") {
+				continue
+			}
+			ws = append(ws, w)
+		}
+		if len(ws) == 0 {
+			c.OK("C18.R10", f.Name, "receiver not written", f.Decl.Pos(), "")
+		} else {
+			c.Fail("C18.R10", f.Name, "receiver not written", ws[0].Pos, "the encoder may write the object it encodes: "+describeWrite(c, ws[0])+" (the original is no longer what was written, so the decoded object differs from it)")
+		}
+	}
+	c.Analysed["encoders"] = n
 }
